@@ -13,7 +13,8 @@ ASSUMPTIONS = ["the snapshot covers slots, EOM blocks, phase trackers, mode flag
                "replica checks are skipped after a partial-effect raise in the same history (reported once, at its cause)"]
 TIERS = {"quick": dict(cases=500, shards=8, case_timeout=180, shard_timeout=900),
          "thorough": dict(cases=8000, shards=16, case_timeout=180, shard_timeout=3000)}
-FLOORS = {"quick": {"raising_calls_checked": 5000, "readonly_calls_checked": 500, "replicas_checked": 500},
+FLOORS = {"quick": {"raising_calls_checked": 5000, "readonly_calls_checked": 500, "replicas_checked": 500,
+                    "raise:slm-dmm-waiting-align": 15},
           "thorough": {"raising_calls_checked": 80000}}
 WEIGHTS = {"get_duration": 0.6, "str": 0.3, "sample": 0.4, "current_phase_ref": 0.3, "estimate_added_delay": 0.6,
            "to_abstract_repr": 0.15, "build_copy": 0.15, "queries": 0.3, "is_in_eom_mode": 0.3, "measure": 0.1,
